@@ -150,6 +150,8 @@ pub fn c04(ctx: &Ctx) -> Collector {
     run_space(&col, 2, &spaces::s_small(&[None], false), &p, true, &no_extra);
     run_space(&col, 4, &spaces::s_order(ctx.tier.thorough()), &p, true, &no_extra);
     run_histories(&col, 5, &p, ctx.tier.thorough());
+    // forced versions at capacity thresholds, with and without a level (default Q must not silently become M or L)
+    run_space(&col, 6, &s_forced_versions(false), &p, true, &no_extra);
     if ctx.tier.thorough() {
         run_space(&col, 3, &spaces::s_len(Family::Ctr, 7200), &p, true, &no_extra);
     }
